@@ -239,9 +239,13 @@ HookWhy(n, env) ==
     [] x.t = "CallExpression" /\ x.c[1].t = "Identifier" ->
          \* m(a...)  ->  (m, undefined, a...)
          IF Len(as) >= 2 /\ IsIdentNamed(StripParen(as[2].c[1]), "undefined") /\ ~IsSpreadArg(as[2])
-         THEN IF ArgsAre(<<as[1]>> \o SubSeq(as, 3, Len(as)),
-                         << <<x.c[1], FALSE>> >> \o ExpectedOfArgs(Args(x)))
-              THEN "" ELSE "hook arguments differ from the operands of the wrapped operation"
+         THEN LET es == << <<x.c[1], FALSE>> >> \o ExpectedOfArgs(Args(x))
+                  as2 == <<as[1]>> \o SubSeq(as, 3, Len(as))
+              IN IF ~SpreadOnce(es) THEN "a spread operand is expanded more than once (not materialised as an array)"
+                 ELSE IF ArgsAre(as2, es)
+                 THEN IF HasRegExp(es) THEN "dev:D18-regexp-literal-operand-evaluated-twice" ELSE ""
+                 ELSE IF HasRawSum(es) /\ Len(as2) < Len(es) THEN "dev:D7b-nonconstant-sum-operand-omitted"
+                 ELSE "hook arguments differ from the operands of the wrapped operation"
          ELSE "bare-call hook lacks the (function, undefined) operands"
     [] OTHER -> "hook wraps an expression that is not an instrumentable operation"
 
@@ -390,7 +394,7 @@ PureTarget(t) ==
      /\ t.c[1].t \in {"Identifier", "ThisExpression"}
      /\ \/ t.c[2].t \in {"Identifier", "PrivateName"}
         \/ /\ t.c[2].t = "Computed"
-           /\ (t.c[2].c[1].t = "Identifier" \/ IsLit(t.c[2].c[1]))
+           /\ IsLit(t.c[2].c[1])        \* o[k]: the key value k is coerced to a property key twice
 
 MOk == [ok |-> TRUE, why |-> "", devs |-> {}]
 MFail(why) == [ok |-> FALSE, why |-> why, devs |-> {}]
